@@ -11,8 +11,17 @@ import (
 func init() { register("C11", propC11) }
 
 func propC11(c *Ctx) {
-	c.Explanation = "Decides structural necessary conditions of UDP datagram integrity for all inputs and schedules: (U1) every access to the receive-queue fields holds rcvMu (must-lockset); (U2) a datagram is enqueued only after the length check and the ready/closed/buffer-full test, all inside one critical section (drop-whole); (U3) the queued packet is a fresh object whose data is a Clone of the view after exactly one TrimFront(UDP header size) and no CapLength, and whose sender address is (NIC of the route, remote address of the id, source port of the header); (U4) rcvList.PushBack only in HandlePacket, Read removes the front element inside the critical section and returns that element's data and sender (FIFO, at most once), the byte accounting adds/subtracts the same packet's size; (U5) Write sends exactly one datagram per successful return with payload = Payload.Get(Payload.Size()) of the caller, local port of the endpoint and the destination port of the connect/To address, returns len(payload), and sends only after route resolution; (U6) the 16-bit UDP length cannot wrap: Write rejects payloads whose size plus the 8-byte header exceeds 65535 (interval analysis of sendUDP's narrowing conversion under that guard). (U7) the read side is closed (rcvClosed, after which HandlePacket drops whole datagrams) exactly when Shutdown is called with ShutdownRead or the endpoint is closed - no earlier shutdown state can suppress it - and nowhere else. (U8) the IPv4 reassembly key covers id, protocol and every byte of both addresses (shared with C08/F4): datagrams of different senders are never merged by reassembly. (U9) link typestate of the packet list. (U10) no examined callee error ends in a nil return in the UDP, route, IPv4/IPv6 and link packages; U5 also tables Route.WritePacket's pass-through of the network endpoint's result. (U11) the receive queue is a correct doubly-linked list. (U12) the IPv4 inbound path hands up exactly the payload (shared with C08/F4). U5 also tables prepareForWrite. NOT decided: byte equality of delivered and sent data over histories; behaviour when the UDP length field is smaller than the IP payload (trailing bytes are delivered)."
+	c.Explanation = "Decides structural necessary conditions of UDP datagram integrity for all inputs and schedules: (U1) every access to the receive-queue fields holds rcvMu (must-lockset); (U2) a datagram is enqueued only after the length check and the ready/closed/buffer-full test, all inside one critical section (drop-whole); (U3) the queued packet is a fresh object whose data is a Clone of the view after exactly one TrimFront(UDP header size) and no CapLength, and whose sender address is (NIC of the route, remote address of the id, source port of the header); (U4) rcvList.PushBack only in HandlePacket, Read removes the front element inside the critical section and returns that element's data and sender (FIFO, at most once), the byte accounting adds/subtracts the same packet's size; (U5) Write sends exactly one datagram per successful return with payload = Payload.Get(Payload.Size()) of the caller, local port of the endpoint and the destination port of the connect/To address, returns len(payload), and sends only after route resolution; (U6) the 16-bit UDP length cannot wrap: Write rejects payloads whose size plus the 8-byte header exceeds 65535 (interval analysis of sendUDP's narrowing conversion under that guard). (U7) the read side is closed (rcvClosed, after which HandlePacket drops whole datagrams) exactly when Shutdown is called with ShutdownRead or the endpoint is closed - no earlier shutdown state can suppress it - and nowhere else. (U8) the IPv4 reassembly key covers id, protocol and every byte of both addresses (shared with C08/F4): datagrams of different senders are never merged by reassembly. (U9) link typestate of the packet list. (U10) no examined callee error ends in a nil return in the UDP, route, IPv4/IPv6 and link packages; U5 also tables Route.WritePacket's pass-through of the network endpoint's result. (U11) the receive queue is a correct doubly-linked list. (U12) the IPv4 inbound path hands up exactly the payload (shared with C08/F4). U5 also tables prepareForWrite. (U13) the complete site table of the IPv4 emitter incl. its size guard (shared with C06/E1); (U14) UDP and IPv4 length fields at the RFC 768/791 bits (shared with C15/B1). (U15) a connected socket receives and sends to the connected port over its own route reference, the first datagram of an empty queue wakes readers, Close empties the queue; (U16) sendUDP returns the result of the one packet write it performs. (U17) the IP layer cuts a datagram at exactly its IP length however many chunks it arrives in (shared with C16/V2). (U18) the only narrowing in package udp is the length field of a datagram whose size Write has bounded. NOT decided: byte equality of delivered and sent data over histories; behaviour when the UDP length field is smaller than the IP payload (trailing bytes are delivered)."
 	c.Assumptions = []string{"tcpip.Payload.Get(n) returns at most n bytes", "header accessors are pure between the guard and the use in HandlePacket"}
+	ipv4WritePacketRule(c, c.Rule("U13", "K7 exact-guard site table (shared with C06/E1)", "the IPv4 emitter refuses exactly the datagrams whose header plus payload do not fit 16 bits, writes one packet and returns the link result", 14))
+	u14 := c.Rule("U14", "K9 bitprov (shared with C15/B1)", "UDP ports, length and checksum and the IPv4 length fields are read and written at exactly the RFC 768/791 bits", 10)
+	c.fieldAccessorLayouts(u14, &bitprov{p: c.P}, func(f fieldLayout) bool {
+		return f.Typ == "UDP" || (f.Typ == "IPv4" && (f.Field == "IHL" || f.Field == "TotalLength" || f.Field == "Protocol"))
+	})
+	udpConnectStateRule(c, c.Rule("U15", "K7 site tables (shared with C09/D11)", "a connected socket receives and sends to the connected port over its own route reference; the first datagram of an empty queue wakes readers; Close empties the queue", 10))
+	sendResultRule(c, c.Rule("U16", "K7 closed return table (shared with C06/E10)", "sendUDP returns the result of the one packet write it performs", 1), "udp.sendUDP")
+	vvCapLengthRule(c, c.Rule("U17", "K7 exact-guard site table (shared with C16/V2)", "the IP layer cuts a datagram at exactly its IP length, however many chunks it arrives in", 4))
+	c.NoNewNarrowing(c.Rule("U18", "K8 narrowing (closed world, reviewed table)", "the only narrowing in package udp is the length field of a datagram whose size Write has bounded", 3), []string{"/transport/udp"}, narrowUDP)
 	u1 := c.Rule("U1", "K4 lockset", "receive queue fields only under rcvMu", 20)
 	c.Locks().CheckGuards(c, u1, guardsUDP, nil)
 
